@@ -258,6 +258,18 @@ func cmdCheck(args []string) int {
 		}
 		r.Obls = keep
 	}
+	e.expectUndecided = map[string]bool{}
+	for i := range known {
+		if !strings.HasPrefix(known[i].Status, "fixed") {
+			e.expectUndecided[known[i].Obligation] = true
+		}
+	}
+	for i := range unproved {
+		e.expectUndecided[unproved[i].Obligation] = true
+	}
+	if tier == "quick" {
+		e.shortBudget = 6
+	}
 	e.solveAll(results, false)
 
 	// aggregate
@@ -675,7 +687,11 @@ func cmdCheck(args []string) int {
 	}
 	os.MkdirAll(filepath.Join(verifDir, "evidence"), 0o755)
 	data, _ := json.MarshalIndent(ev, "", " ")
-	os.WriteFile(filepath.Join(verifDir, "evidence", prop+".json"), data, 0o644)
+	// (VERIF_NO_EVIDENCE: runs on deliberately changed trees — the seeded and harmless corpora — must not
+	// overwrite the evidence of the registered checks)
+	if os.Getenv("VERIF_NO_EVIDENCE") == "" {
+		os.WriteFile(filepath.Join(verifDir, "evidence", prop+".json"), data, 0o644)
+	}
 	fmt.Printf("property %s (%s): %d/%d obligations discharged, %d known findings, %d undecided-allowed, %d violations, %.1fs\n", prop, tier, discharged, total, len(knownHit), len(undecidedAllowed), violations, time.Since(t0).Seconds())
 	for _, l := range violLines {
 		fmt.Println(l)
@@ -714,7 +730,9 @@ func reportBuildFailure(prop, tier string, seed int, t0 time.Time, msg string) i
 		"assumptions": []string{}, "wall_s": time.Since(t0).Seconds(), "violations": 1}
 	os.MkdirAll(filepath.Join(verifDir, "evidence"), 0o755)
 	d2, _ := json.MarshalIndent(ev, "", " ")
-	os.WriteFile(filepath.Join(verifDir, "evidence", prop+".json"), d2, 0o644)
+	if os.Getenv("VERIF_NO_EVIDENCE") == "" {
+		os.WriteFile(filepath.Join(verifDir, "evidence", prop+".json"), d2, 0o644)
+	}
 	fmt.Printf("VIOLATION property=%s replay=%s no-failing-input-found\n", prop, path)
 	return 1
 }
